@@ -14,7 +14,7 @@ def FUEL : Nat := 100000
 
 def showOut (n : Int) : String := if n ≥ 0 then s!"Ok({n})" else s!"Err({n})"
 def showTask (t : Nat) : String := s!"Tsk({t})"
-def showRes (r : Nat) : String := s!"MK({r})"
+def showRes (r : Nat) : String := if r ≥ 100 then s!"TR({r})" else s!"MK({r})"
 def showOChk : Nat → String
   | 0 => "EqualsChecker" | 1 => "OkEqualsChecker" | 2 => "ErrEqualsChecker" | 3 => "ResultChecker"
   | 5 => "ParityOut" | _ => "AlwaysConsistent"
